@@ -57,10 +57,17 @@ def deleg_case(rng, gpg: bool):
 def near_miss_case(rng, gpg: bool):
     """the role asked for is a near miss of a delegated role, and the envelope is properly signed by that delegated role's keys"""
     real = rng.choice(["key_mgr", "pkg_mgr", "root", "channeler"])
+    uni = None
+    if rng.random() < 0.3:
+        # names that differ only by Unicode normalization form, compatibility mapping or case folding are different names
+        real, uni = rng.choice([("caf\u00e9", "cafe\u0301"), ("cafe\u0301", "caf\u00e9"), ("\u212b", "\u00c5"), ("\uff52oot", "root"), ("root", "\uff52oot"),
+                                ("stra\u00dfe", "strasse"), ("\u01c6", "d\u017e"), ("key_mgr\u200b", "key_mgr"), ("\u1e9b\u0323", "\u1e61\u0323")])
     ks = [gen.key(i) for i in rng.sample(range(8), rng.randint(1, 2))]
     dels = {real: gen.delegation(ks, len(ks)), "zz": gen.delegation([gen.key(9)], 1)}
     trusted = gen.envelope(gen.delegating_md(rng.choice(["root", "key_mgr"]), dels))
     asked = rng.choice([real + ".json", real.upper(), real.capitalize(), real + " ", " " + real, real[:-1], real + "s", real.replace("_", "-"), real + "\n", real + "/", "./" + real, real + ".JSON"])
+    if uni is not None:
+        asked = uni
     u = gen.sign_env(gen.envelope(envgen.payload(rng) if rng.random() < 0.7 else {"type": asked, "x": 1}), ks, gpg, rng)
     return asked, u, trusted
 
